@@ -206,7 +206,9 @@ fn removes_unknown_index_before_known(k: &KD, p: &[Seg]) -> bool {
         Seg::I(i) => match &k.arr {
             Some(a) => {
                 if *i < 0 {
-                    return a.unknown.admits_defined() && !a.known.is_empty();
+                    // removing the last element (-1) shifts nothing; the finding concerns
+                    // elements with known indices *behind* the removed one
+                    return *i < -1 && a.unknown.admits_defined() && !a.known.is_empty();
                 }
                 let i = *i as usize;
                 match a.known.get(&i) {
@@ -447,7 +449,7 @@ pub fn run(r: &mut Run) {
         || (kvp(), kind_member_mix(2)).prop_map(|((k, v, p), (xk, x))| InsCase { k, v, p, xk, x }),
         move |c| check_insert(c, fl),
     );
-    r.sub("remove", 150_000, 15_000_000, || (kvp(), any::<bool>()).prop_map(|((k, v, p), prune)| RemCase { k, v, p, prune }), move |c| check_remove(c, fl));
+    r.sub("remove", 400_000, 30_000_000, || (kvp(), any::<bool>()).prop_map(|((k, v, p), prune)| RemCase { k, v, p, prune }), move |c| check_remove(c, fl));
     r.sub(
         "union_merge_superset",
         150_000,
